@@ -1414,6 +1414,18 @@ fn bodies(cx: &mut Ctx) {
 		};
 		let commit_only = i % 3 == 2;
 		let body = gen_body(&mut cx.rng, ni, no, nk, commit_only, false, true);
+		let tot = ni + no + nk;
+		cx.stat(format!(
+			"body entries {} inputs-variant {}",
+			match tot {
+				0 => "0",
+				1..=3 => "1-3",
+				4..=20 => "4-20",
+				21..=100 => "21-100",
+				_ => ">100",
+			},
+			if commit_only { "CommitOnly" } else { "FeaturesAndCommit" }
+		));
 		let with_enc = no <= 3;
 		roundtrip_all(cx, chain, true, &body, with_enc);
 		let blk = Block {
@@ -1498,6 +1510,25 @@ fn bodies(cx: &mut Ctx) {
 					dec_case::<Transaction>(cx, *v, true, chain, &b, None, Expect::Any, "tx-nrd-duplicate");
 					dec_case::<Transaction>(cx, *v, false, chain, &b, None, Expect::Any, "tx-nrd-disabled");
 				}
+			}
+		}
+	}
+	// `Inputs::default()` is `CommitOnly([])`; v1/v2 read an empty list back as `FeaturesAndCommit([])`,
+	// which the derived `PartialEq` of `TransactionBody` does not consider equal (no commitments differ)
+	{
+		set_env('A', false);
+		let empty = TransactionBody::empty();
+		for v in [1u32, 2, 3].iter() {
+			let b = enc_at(&empty, *v).unwrap();
+			let d: TransactionBody =
+				ser::deserialize(&mut &b[..], ProtocolVersion(*v), DeserializationMode::default()).unwrap();
+			if d != empty {
+				cx.out.raw(&format!(
+					"#KNOWN-PROBE C10 empty-inputs-variant: TransactionBody::empty() (Inputs::CommitOnly([])) written and read at v{} comes back as Inputs::{} and `==` is false (same, empty, commitment set)",
+					v,
+					d.inputs.version_str()
+				));
+				cx.stat(format!("TransactionBody v{} probe:empty-inputs-variant", v));
 			}
 		}
 	}
